@@ -1,1 +1,95 @@
-import SigModel.Spec.Hub
+/-
+C19 — Virtual sessions exist only through, and only as long as, their internal client.
+-/
+import SigModel.Props.C05
+
+namespace SigModel.Hub
+
+/-- **Only internal clients.** add / remove / in-call requests of a session that is not an internal
+client change nothing and produce no output. -/
+theorem C19_only_internal (a : Acc) (s : Nat) (x : Sess) (hx : a.h.sess s = some x) (hk : x.kind ≠ .internal)
+    (r vkey user : String) (ic : Option Nat) (ok : Bool) (n : Nat) :
+    addVirtual a s r vkey user ic ok = a ∧ removeVirtual a s r vkey = a ∧ internalInCall a s n = a := by
+  refine ⟨?_, ?_, ?_⟩
+  · unfold addVirtual; simp [hx, hk]
+  · unfold removeVirtual; simp [hx, hk]
+  · unfold internalInCall; simp [hx, hk]
+
+/-- **Only rooms of its own backend.** A virtual session is created in the room with the given id *on
+the internal client's backend* (if that room exists there) and nowhere else: rooms of other backends
+keep their member lists. -/
+theorem C19_own_backend_only (a : Acc) (s : Nat) (x : Sess) (hx : a.h.sess s = some x)
+    (r vkey user : String) (ic : Option Nat) (ok : Bool) (b : Nat) (hb : b ≠ x.backend) (r' : String) :
+    (addVirtual a s r vkey user ic ok).h.rooms b r' = a.h.rooms b r' := by
+  unfold addVirtual
+  simp only [hx]
+  split
+  · rfl
+  · split
+    · rfl
+    · split
+      · exact congrFun (congrFun (sendTo_core a s _).rooms b) r'
+      · have c := (roomAddSession_core { a with h := virtualTables a.h s x r vkey user ic } x.backend r a.h.nextSid .virtual "").rooms
+        rw [congrFun (congrFun c b) r']
+        simp only [hubf, hb, false_and, if_false]
+        unfold virtualTables; simp only [hubf]
+
+/-- **Existence and lifetime.** In every reachable state a virtual session has no connection of its
+own, and its internal client exists, is an internal session of the same backend and lists it — so when
+the internal client's session ends (bye, expiry, kick) no virtual session of it can remain
+(`C07_no_residue` covers the tables, the rooms and the bus). -/
+theorem C19_exists_through_parent (ops : List Op) (v : Nat) (vx : Sess)
+    (hv : (run {} ops).1.sess v = some vx) (hk : vx.kind = .virtual) :
+    vx.conn = none ∧ ∃ p, (run {} ops).1.sess vx.parent = some p ∧ p.kind = .internal ∧ p.backend = vx.backend ∧
+      v ∈ p.children := by
+  obtain ⟨h1, _, _, h4⟩ := (reachable_inv ops).virt v vx hv hk
+  rcases h4 with h4 | h4
+  · cases h4
+  · exact ⟨h1, h4⟩
+
+/-- The entries of the virtual-session table point to live virtual sessions of the right owner and id. -/
+theorem C19_table_sound (ops : List Op) (p : Nat) (k : String) (v : Nat) (h : (run {} ops).1.vtable p k = some v) :
+    ∃ vx, (run {} ops).1.sess v = some vx ∧ vx.kind = .virtual ∧ vx.parent = p ∧ vx.vkey = k :=
+  (reachable_inv ops).vtable p k v h
+
+/-- **Appears as a participant.** A virtual session in a room is a member of that room (C04), and is not
+a bus listener of its own: whatever is addressed to it is written to its internal client with the
+recipient rewritten to the client's own id (`C05_routing`, `expectedOut`). -/
+theorem C19_member_not_listener (ops : List Op) (v : Nat) (vx : Sess) (r : String)
+    (hv : (run {} ops).1.sess v = some vx) (hk : vx.kind = .virtual) (hr : vx.room = some r) :
+    (∃ rm, (run {} ops).1.rooms vx.backend r = some rm ∧ v ∈ rm.members) ∧ v ∉ (run {} ops).1.roomL vx.backend r := by
+  refine ⟨(reachable_inv ops).room_mem' v vx r hv hr, ?_⟩
+  intro hm
+  obtain ⟨y, hy, _, _, hkv⟩ := ((reachable_inv ops).roomL_iff _ _ v).mp hm
+  rw [hv] at hy; cases hy; exact hkv hk
+
+theorem C19_removed_is_gone (a : Acc) (s : Nat) (r vkey : String) (v : Nat) (x : Sess) (rm : Room) (hi : Inv a.h)
+    (hx : a.h.sess s = some x) (hk : x.kind = .internal) (hrm : a.h.rooms x.backend r = some rm)
+    (hv : a.h.vtable s vkey = some v) : (removeVirtual a s r vkey).h.sess v = none := by
+  unfold removeVirtual
+  simp only [hx, hk, ne_eq, not_true_eq_false, if_false, hrm, hv]
+  have hi' : Inv ({ a.h with vtable := fun p k => if p = s ∧ k = vkey then none else a.h.vtable p k } : Hub) := by
+    obtain ⟨f1, f2, f3, f4, f5, f6, f7, f8, f9, f10, f11, f12, f13, f14, f15, f16, f17, f18, f19, f20, f21, f22, f23, f24, f25⟩ := hi
+    constructor
+    all_goals first | assumption | skip
+    · intro p k v' hv'
+      simp only [] at hv'
+      split at hv'
+      · cases hv'
+      · exact f15 p k v' hv'
+  exact (closeSession_sub { a with h := { a.h with vtable := fun p k => if p = s ∧ k = vkey then none else a.h.vtable p k } } v hi').2
+
+private def demo : List Op :=
+  [.connect 1, .connect 2, .hello 1 0 .internal "" false false, .hello 2 0 .client "bob" false false,
+   .join 2 "room" "n2" (.ok none ""), .addVirtual 1 "room" "phone-7" "carol" none true,
+   .message 2 false (.session (some 3)) "ring", .bye 1]
+
+/-- Non-vacuity: bob's message to the virtual session is written to the internal client's connection
+with the client's own id for it as recipient; when the internal client says bye, bob sees the virtual
+session leave. -/
+example : ((run {} demo).2.drop 6).map (fun outs => outs.map (fun o => (o.conn, o.msg))) =
+    [[(1, .message false ⟨.session, 2, "bob"⟩ (some "phone-7") "ring")],
+     [(1, .bye ""), (2, .leave [3])]] := by
+  decide +kernel
+
+end SigModel.Hub
